@@ -374,7 +374,8 @@ fn gen_creation(r: &mut Rng) -> Creation {
     for _ in 0..nc {
         let k = mostly_ok(r, LABEL_POOL, &["l", "a", "a_1", "_a", "L", "k"]);
         if !consts.iter().any(|(x, _)| *x == k) {
-            consts.push((k, "v".to_string()));
+            // (different values let several metrics share one name)
+            consts.push((k, r.pick(&["v", "v", "w"]).to_string()));
         }
     }
     let span = if r.chance(25) { 5 } else { 2 };
@@ -547,7 +548,16 @@ fn execute_c09(plan: &NamesPlan, mode: Mode) -> RunOut {
                                 v.push(Violation::new("C09/exposed", key, format!("gather() exposes the label name {:?} on {:?} (registry labels {:?})", k, name, plan.common)));
                             }
                             if !seen.insert(k.clone()) {
-                                let key = if from_common { "C09/exposed-duplicate:registry-label-clashes-with-metric-label" } else { "C09/exposed-duplicate" };
+                                // the recorded finding is the CLASH: the metric itself carries a label of that name
+                                let exposed_name = |c: &Creation| {
+                                    let parts: Vec<&str> = [c.namespace.as_str(), c.subsystem.as_str(), c.name.as_str()].into_iter().filter(|s| !s.is_empty()).collect();
+                                    match &plan.prefix {
+                                        Some(p) => format!("{}_{}", p, parts.join("_")),
+                                        None => parts.join("_"),
+                                    }
+                                };
+                                let own = registered.iter().filter(|c| exposed_name(c) == name).any(|c| c.consts.iter().any(|(n, _)| n == k) || c.vars.iter().any(|n| n == k));
+                                let key = if from_common && own { "C09/exposed-duplicate:registry-label-clashes-with-metric-label" } else { "C09/exposed-duplicate" };
                                 v.push(Violation::new("C09/exposed", key, format!("gather() exposes the label name {:?} twice on a sample of {:?}: {:?} (registry labels {:?})", k, name, m.labels, plan.common)));
                             }
                         }
